@@ -1712,3 +1712,61 @@ def rule_repeatable_records(ctx, g, rid):
                 else:
                     ctx.ok(rid, key, "stored once")
     ctx.floor(rid, "record_arms", n, 40)
+
+
+def rule_nothing_read_after_endlib(ctx, g, rid):
+    """R03.4b: the library parser's ENDLIB arm ends the read: no byte of the source is consumed (or inspected) after it"""
+    ctx.rule(rid, "after the library parser has matched ENDLIB nothing more is read from the source: whatever follows (tape padding, stale blocks) can neither fail the read nor change its result")
+    F = ctx.F
+    prs = parsers_by_type(F)
+    f = prs.get("gds21::data::GdsLibrary")
+    if f is None:
+        ctx.error(rid, "library parser not found")
+        return
+    b = Body(f)
+    sw = gc.main_record_switch(F, b)
+    if sw is None or "EndLib" not in sw[1]:
+        ctx.error(rid, "%s: no ENDLIB arm found" % f.short)
+        return
+    READS = re.compile(r"std::io::Read::\w+$|io::Read>?::\w+$|ReadBytesExt::\w+$|GdsReader::<.*>::\w+$|GdsParser::<.*>::(next|peek|advance)$|io::Seek::\w+$|BufRead::\w+$")
+    after = od.reach(b, sw[1]["EndLib"])
+    hits = [(x, callee_name(b.term(x))) for x in sorted(after) if b.term(x)["k"] == "call" and READS.search(callee_name(b.term(x)) or "")]
+    key = "%s/after-endlib" % f.short
+    if hits:
+        ctx.violation(rid, key, "%s reads from the source (%s) after matching ENDLIB: bytes that follow the end-of-library record can make the read fail or differ" % (f.short, ", ".join(sorted({h[1].split("::")[-1] for h in hits}))), b.site(hits[0][0]), key)
+    else:
+        ctx.ok(rid, key, "no read reachable from the ENDLIB arm (%d blocks)" % len(after))
+
+
+def rule_strings_are_utf8(ctx, g, rid):
+    """the reader decodes string payloads with the inverse of what the writer encodes them with (UTF-8 bytes)"""
+    ctx.rule(rid, "string payloads are decoded with from_utf8, the inverse of the writer's `as_bytes()`: no byte-to-char mapping (`char::from(u8)`, `as char`) or lossy decoding in the reader, which would change non-ASCII text on the next write")
+    F = ctx.F
+    n = 0
+    for f in F.fns.values():
+        if not f.id.startswith("gds21::read::") or not f.body or f.derived:
+            continue
+        b = Body(f)
+        out_s = (f.output or {}).get("s", "")
+        parent = f
+        if f.kind == "Closure":
+            pid = re.sub(r"::\{closure#\d+\}$", "", f.id)
+            parent = F.fns.get(pid, f)
+        if "String" not in ((parent.output or {}).get("s", "")):
+            continue
+        n += 1
+        hits = []
+        for bi, t in b.calls():
+            nm = callee_name(t) or ""
+            if re.search(r"<char as std::convert::From<u8>>::from$|From<u8> for char>::from$|char::from_u32\w*$|char::from_digit$|String::from_utf8_lossy$|::from_utf8_unchecked$|String::from_utf16\w*$", nm):
+                hits.append((bi, nm.split("::")[-1] if "From<u8>" not in nm else "char::from(u8)"))
+        for bi, blk in enumerate(b.blocks):
+            for st in blk["st"]:
+                if st["k"] == "assign" and st["rv"]["k"] == "cast" and (st["rv"].get("to") or {}).get("s") == "char":
+                    hits.append((bi, "as char"))
+        key = "%s/decode" % parent.short
+        if hits:
+            ctx.violation(rid, key, "%s builds a string from payload bytes with %s: every byte >= 0x80 becomes a different character than the UTF-8 text the writer emits, so the library read is not stable under write and read" % (parent.short, ", ".join(sorted({h[1] for h in hits}))), b.site(hits[0][0]), key)
+        else:
+            ctx.ok(rid, "%s@%s" % (key, f.short.split("::")[-1]), "no byte-to-char mapping")
+    ctx.floor(rid, "string_returning_reader_functions", n, 1)
